@@ -272,6 +272,8 @@ def findTag (hdr : String) : Scan → List Op → String
     else findTag hdr { sc0 with m := xm.1, i := xi.1, s := xs.1 } r
 
 def step (line : String) : String :=
+  -- block execution / initialisation run inside a transaction (source check of instance.go)
+  if line == "ast ExecuteBlock" || line == "ast InitializeBlock" then "start<exec" else
   match parseLine line with
   | none => "bad-op"
   | some ops =>
